@@ -136,7 +136,7 @@ func Run(c *ev.Ctx) {
 		{"modified-same-id", ops(cmdlib.RegNode(n1id1), cmdlib.RegNode(cmdlib.NodeSpec{Node: "n1", ID: "id1", Addr: "10.0.0.7"}))},
 		{"re-created-other-id", ops(cmdlib.RegNode(cmdlib.NodeSpec{Node: "n1", ID: "id2"}), cmdlib.DeregNode("n1", ""), cmdlib.RegNode(n1id1))},
 		{"other-node-has-id", ops(cmdlib.RegNode(n1), cmdlib.RegNode(cmdlib.NodeSpec{Node: "n9", ID: "id2"}))}}
-	svcPres := []prestate{{"absent", ops(cmdlib.RegNode(n1))}, {"present", ops(cmdlib.RegService(n1, web))}, {"modified", ops(cmdlib.RegService(n1, web), cmdlib.RegService(n1, web81))},
+	svcPres := []prestate{{"node-missing", nil}, {"absent", ops(cmdlib.RegNode(n1))}, {"present", ops(cmdlib.RegService(n1, web))}, {"modified", ops(cmdlib.RegService(n1, web), cmdlib.RegService(n1, web81))},
 		{"re-created", ops(cmdlib.RegService(n1, web), cmdlib.DeregService("n1", "web", ""), cmdlib.RegService(n1, web81))}}
 	svcCur := func(w *world.World) uint64 {
 		_, s, _ := w.Store().NodeService(nil, "n1", "web", nil, "")
@@ -145,7 +145,7 @@ func Run(c *ev.Ctx) {
 		}
 		return s.ModifyIndex
 	}
-	ckPres := []prestate{{"absent", ops(cmdlib.RegNode(n1))}, {"present", ops(cmdlib.RegCheck(n1, ck))}, {"modified", ops(cmdlib.RegCheck(n1, ck), cmdlib.RegCheck(n1, ckW))},
+	ckPres := []prestate{{"node-missing", nil}, {"absent", ops(cmdlib.RegNode(n1))}, {"present", ops(cmdlib.RegCheck(n1, ck))}, {"modified", ops(cmdlib.RegCheck(n1, ck), cmdlib.RegCheck(n1, ckW))},
 		{"re-created", ops(cmdlib.RegCheck(n1, ck), cmdlib.DeregCheck("n1", "c1", ""), cmdlib.RegCheck(n1, ckW))}}
 	ckCur := func(w *world.World) uint64 {
 		_, h, _ := w.Store().NodeCheck("n1", "c1", nil, "")
@@ -357,6 +357,10 @@ func Run(c *ev.Ctx) {
 						continue
 					}
 					m, spec := matched(f.kind, cur, sup)
+					if p.name == "node-missing" {
+						// the write cannot be valid whatever index it carries: it must change nothing and be reported as failed
+						m, spec = false, true
+					}
 					run(f.name, p.name+"/idx="+ic.String(), p.ops, f.cmd(ic), m, spec, f.reported, nil)
 				}
 			}
